@@ -372,7 +372,7 @@ theorem rewrite_identity (c : Cfg) (tm : TM) (slices : List (List CS)) (kept : L
       (fun k hk d hd => by
         obtain ⟨col, hcol, hkc⟩ := C01.entry_of_kept hall hk
         exact C01.writable_of_fits ((h.colFit col hcol k hkc).2.2 d hd).1)
-      (fun s hs x hx => C01.cs_writable_of_fits ((hf s hs).1 x hx))
+      (fun s hs x hx => C01.cs_writable_of_fits ((hf s hs).1 x hx)) hn
     rw [← hem.2, this.2]
   obtain ⟨kept', hfold', hcanon⟩ := tm_rewrite_identity c tm kept h hnul
   obtain ⟨_, hall, _⟩ := fold_facts _ kept h.fold
@@ -407,6 +407,9 @@ theorem rewrite_identity (c : Cfg) (tm : TM) (slices : List (List CS)) (kept : L
     exact C01.writable_of_fits ((h.colFit colk hcolk k hkc).2.2 d hd).1
   · intro s hs x hx
     exact C01.cs_writable_of_fits ((hf s hs).1 x hx)
+  · -- the slices still have the column count of the metadata that was read back
+    intro s hs
+    simp [C01.rebuiltCols, hn s hs]
 
 
 /-! ### foreign streams: whatever the reader accepts is stable under serialisation -/
